@@ -56,6 +56,9 @@ Ltac proj :=
 
 (* ------------------------------------------------------------------ cloneState / cloneErr / cloneAttempts copy *)
 
+Lemma meta_val_idem b : meta_val (meta_val b) = meta_val b.
+Proof. unfold meta_val. destruct (bl_nil b) eqn:E; [reflexivity|now rewrite E]. Qed.
+
 Lemma clone_state_id s : clone_state s = s.
 Proof. destruct s as [[st a b]|]; reflexivity. Qed.
 
@@ -210,7 +213,7 @@ Section Proofs.
   Lemma clone_plan_eq o p :
     clone_plan o p =
     {| p_id := if keep_state o then p_id p else uid0; p_group := p_group p;
-       p_name := p_name p; p_descr := p_descr p; p_meta := p_meta p;
+       p_name := p_name p; p_descr := p_descr p; p_meta := meta_val (p_meta p);
        p_bypass := option_map (clone_checks o) (p_bypass p);
        p_pre := option_map (clone_checks o) (p_pre p);
        p_cont := option_map (clone_checks o) (p_cont p);
@@ -307,7 +310,7 @@ Section Proofs.
   Proof.
     rewrite clone_plan_eq.
     unfold defn_plan, reqmap_plan, amap_plan, nokeys_plan, norm_plan. proj.
-    rewrite !defn_clone_ochecks, defn_clone_blocks. reflexivity.
+    rewrite !defn_clone_ochecks, defn_clone_blocks, meta_val_idem. reflexivity.
   Qed.
 
   (* ---------------------------------------------------------------- c18_keepstate *)
